@@ -1062,6 +1062,33 @@ def _equivalent_patches(ctx: Ctx, base: set) -> dict:
     return out
 
 
+def _independent_refactorings(ctx: Ctx, base: set) -> dict:
+    """Behaviour-preserving restructurings written by sub-agents that never saw /verif (kept under /verif/refactorings/<name>/ with the
+    script that showed them equivalent on the test inputs).  A measurement, not a gate: heavy restructurings can move code outside the
+    analyser's model; what is reported for each is recorded here (DESIGN section 7 discusses the remaining ones)."""
+    import glob
+    import os
+    from .report import VERIF
+    out = {"total": 0, "silent": [], "not_silent": [], "skipped_patch_does_not_apply": []}
+    for path in sorted(glob.glob(os.path.join(VERIF, "refactorings", "*", "patch.diff"))):
+        name = os.path.basename(os.path.dirname(path))
+        var = _apply_patch_in_memory(ctx.p, path)
+        if var is None:
+            out["skipped_patch_does_not_apply"].append(name)
+            continue
+        out["total"] += 1
+        try:
+            c2, err = _run(var, ctx.prop)
+            newf = [f for f in c2.findings if f.key not in base]
+        except Exception as e:
+            newf, err = [], f"{type(e).__name__}: {e}"
+        if newf or err:
+            out["not_silent"].append({"refactoring": name, "alarms": sorted({f"{f.rule}: {f.construct[:80]}" for f in newf})[:6], "analysis_error": (err or "")[:160]})
+        else:
+            out["silent"].append(name)
+    return out
+
+
 def run(ctx: Ctx) -> None:
     global _BASE
     import multiprocessing as mp
@@ -1160,6 +1187,7 @@ def run(ctx: Ctx) -> None:
     ctx.extra["selfcheck"] = {
         "independent_seeded_changes": indep,
         "equivalent_patches": _equivalent_patches(ctx, base),
+        "independent_refactorings": _independent_refactorings(ctx, base),
         "mutation_operators": {"functions": list(ANCHORS.get(prop, [])), "mutants": n_op_total, "reported": op_reported, "analysis_aborted": op_error,
                                "silent": len(op_silent), "silent_examples": sorted(op_silent)[:60],
                                "note": "comparison flip / arithmetic swap / constant+1 / boolean flip / statement deletion / condition negation / break-continue "
